@@ -52,6 +52,16 @@ func (c14) Plan(tier string, seed int64) []core.Scenario {
 		out = append(out, core.Sc("w4").WithN("variant", i%2))
 		out = append(out, core.Sc("w1").WithN("variant", i%4))
 	}
+	// a writer that stays busy for seconds because the peer reads slowly: a second response has to wait for
+	// it (slowpeer), and the client is closed while its own writer is busy (close-busy)
+	nsl := 1
+	if tier == "thorough" {
+		nsl = 3
+	}
+	for i := 0; i < nsl; i++ {
+		out = append(out, core.Sc("slowpeer").WithN("mb", 24).WithN("rep", i))
+		out = append(out, core.Sc("close-busy").WithN("mb", 24).WithN("rep", i))
+	}
 	for i := range out {
 		out[i].Seed = seed*160481183 + int64(i)
 		out[i] = out[i].WithN("noise", 1+i%2)
@@ -71,6 +81,10 @@ func (p c14) Run(sc core.Scenario) core.Result {
 	case "w1":
 		c08{}.w1(sc, r)
 		r.Obs("w1_runs", 1)
+	case "slowpeer":
+		p.slowPeer(sc, r)
+	case "close-busy":
+		p.closeBusy(sc, r)
 	}
 	return r.Result()
 }
@@ -315,4 +329,145 @@ func (c14) w4(sc core.Scenario, r *core.R) {
 	r.Obs("w4_formed", b2i(formed))
 	r.Sig(core.Log.Signature())
 	r.Sample(map[string]interface{}{"window": "closer fired at the connection swap", "formed": formed})
+}
+
+// slowPeer: the server writes a response of many write buffers to a peer that reads slowly, so the
+// writer stays busy for several seconds; a second call completes meanwhile and its response has to wait
+// for the writer. Both responses must arrive whole, and nothing else may appear on the wire.
+func (c14) slowPeer(sc core.Scenario, r *core.R) {
+	env := NewEnv(EnvOpt{})
+	defer env.Shutdown()
+	pol := noisePolicy(sc)
+	writerBusy := make(chan struct{})
+	var once sync.Once
+	var armed int32
+	pol.Rules = append(pol.Rules, &core.Rule{Point: "ws.writer.locked", Side: 2, Arg: "response", Do: func(jsonrpc.VerifEvent) {
+		if atomic.LoadInt32(&armed) == 1 {
+			once.Do(func() { close(writerBusy) })
+		}
+	}})
+	defer pol.Install()()
+	cl, err := env.NewClient(ClientOpt{Opts: []jsonrpc.Option{jsonrpc.WithNoReconnect()}})
+	if err != nil {
+		r.Inconclusive("client: %v", err)
+		return
+	}
+	bg := context.Background()
+	w := Tok("w")
+	if v, err := cl.Echo(bg, w, ""); err != nil || v != svc.Reply(w) {
+		r.Inconclusive("warm-up: %v", err)
+		return
+	}
+	n := sc.I("mb") << 20
+	env.Px.SetReadThrottle(wsproxy.S2C, 3<<20)
+	bt := Tok("b")
+	atomic.StoreInt32(&armed, 1)
+	big := Go(bt, func() (string, error) { return cl.Big(bg, bt, n) })
+	if !core.WaitCh(env.Svc.ExitedCh(bt), 2*core.Grace) || !core.WaitCh(writerBusy, 4*core.Grace) {
+		r.Inconclusive("the large response never reached the writer")
+		return
+	}
+	time.Sleep(300 * time.Millisecond) // the response is being written now
+	start := time.Now()
+	et := Tok("e")
+	small := Go(et, func() (string, error) { return cl.Echo(bg, et, "") })
+	if !big.Wait(8 * core.Grace) {
+		r.Violate("response-lost:slow-peer", "the %d MiB response to a slowly reading peer never arrived; events: %s", sc.I("mb"), core.Log.Tail(20))
+	} else if big.Err != nil || len(big.Val) != len(svc.Reply(bt))+1+n || !strings.HasPrefix(big.Val, svc.Reply(bt)) {
+		r.Violate("response-corrupt:slow-peer", "the large response arrived as (len %d, %v)", len(big.Val), big.Err)
+	}
+	waited := time.Since(start)
+	if !small.Wait(2 * core.Grace) {
+		r.Violate("response-lost:behind-busy-writer", "the response of a call that completed while the writer was busy for %v with a large response never arrived; events: %s", waited.Round(100*time.Millisecond), core.Log.Tail(20))
+	} else if small.Err != nil || small.Val != svc.Reply(et) {
+		r.Violate("response-lost:behind-busy-writer", "the call that completed while the writer was busy returned (%q, %v)", core.Trunc(small.Val, 60), small.Err)
+	}
+	for _, e := range env.Px.ProtoErrors() {
+		r.Violate("frame-corruption", "frame validator: %s", e)
+	}
+	for _, e := range env.Px.TornFrames() {
+		r.Violate("frame-torn", "%s", e)
+	}
+	r.Key("slowpeer", waited > 2*time.Second)
+	r.Obs("slow_writer_seconds", int64(waited/time.Second))
+	r.Sig(core.Log.Signature())
+	r.Sample(map[string]interface{}{"scenario": "second response queued behind a writer busy with a large response to a slow reader", "mb": sc.I("mb"), "second_response_waited_ms": waited.Milliseconds()})
+}
+
+// closeBusy: the client is closed while one of its own writers (the response of a client-side handler
+// to a reverse call) is in the middle of a message of many write buffers to a slowly reading peer.
+// Whatever the client put on the wire must be whole messages.
+func (c14) closeBusy(sc core.Scenario, r *core.R) {
+	// no keepalive in either direction, see below
+	env := NewEnv(EnvOpt{Rev: true, ServerOpts: []jsonrpc.ServerOption{jsonrpc.WithServerPingInterval(0)}})
+	defer env.Shutdown()
+	pol := noisePolicy(sc)
+	writerBusy := make(chan struct{})
+	var once sync.Once
+	var armed int32
+	pol.Rules = append(pol.Rules, &core.Rule{Point: "ws.writer.locked", Side: 1, Arg: "response", Do: func(jsonrpc.VerifEvent) {
+		if atomic.LoadInt32(&armed) == 1 {
+			once.Do(func() { close(writerBusy) })
+		}
+	}})
+	defer pol.Install()()
+	// no pings: a ping or pong forwarded to the client after it has closed makes its kernel answer with a reset
+	// (TCPAbortOnData), which discards what the slow reader has not consumed yet - TCP behaviour towards a slow
+	// reader, not a write the library got wrong
+	cl, err := env.NewClient(ClientOpt{RevIdent: "A", Opts: []jsonrpc.Option{jsonrpc.WithNoReconnect(), jsonrpc.WithPingInterval(0)}})
+	if err != nil {
+		r.Inconclusive("client: %v", err)
+		return
+	}
+	bg := context.Background()
+	w := Tok("w")
+	if v, err := cl.Echo(bg, w, ""); err != nil || v != svc.Reply(w) {
+		r.Inconclusive("warm-up: %v", err)
+		return
+	}
+	env.Px.SetReadThrottle(wsproxy.C2S, 4<<20)
+	var bigSeen int32
+	env.Px.SetObserver(func(fi wsproxy.FrameInfo, payload []byte) {
+		if fi.Dir == wsproxy.C2S && fi.Msg != nil && fi.Msg.Len > 1<<20 {
+			core.Log.Note("h.bigmsg", fmt.Sprintf("len=%d valid=%v", fi.Msg.Len, fi.Msg.Valid))
+			if fi.Msg.Valid {
+				atomic.AddInt32(&bigSeen, 1)
+			}
+		}
+	})
+	t := Tok("v")
+	atomic.StoreInt32(&armed, 1)
+	fwd := Go(t, func() (string, error) { return cl.Rev(bg, t, 1, 9) })
+	if !core.WaitCh(cl.RevSvc.ExitedCh(t+".r0"), 2*core.Grace) || !core.WaitCh(writerBusy, 4*core.Grace) {
+		r.Inconclusive("the client-side handler's response never reached the writer")
+		return
+	}
+	time.Sleep(500 * time.Millisecond) // the response is being written to the slow reader now
+	start := time.Now()
+	closed := make(chan struct{})
+	go func() { cl.Close(); close(closed) }()
+	if !core.WaitCh(closed, 8*core.Grace) {
+		r.Violate("closer-hang:busy-writer", "the closer did not return although the peer keeps reading (slowly)")
+	}
+	waited := time.Since(start)
+	fwd.Wait(core.Grace)
+	// the proxy reads on until the client's stream ends: everything the client wrote before closing
+	ended := core.EventuallyProgress(2*core.Grace, func() int64 { return int64(env.Px.DataFrames(wsproxy.C2S)) }, func() bool { return env.Px.LiveConns() == 0 })
+	time.Sleep(100 * time.Millisecond)
+	if env.Px.Resets() > 0 {
+		r.Inconclusive("the client's stream ended with a TCP reset: what the kernel discarded is unknown")
+	} else if ended && atomic.LoadInt32(&bigSeen) == 0 && len(env.Px.TornFrames()) == 0 {
+		r.Violate("frame-torn:close", "the client was closed while its writer was sending a large message; its stream ended without that message ever being completed on the wire; events: %s", core.Log.TailFiltered(40, "px.frame"))
+	}
+	for _, e := range env.Px.TornFrames() {
+		r.Violate("frame-torn:close", "client closed while its writer was busy: %s; events: %s", e, core.Log.TailFiltered(30, "px.frame"))
+	}
+	for _, e := range env.Px.ProtoErrors() {
+		r.Violate("frame-corruption", "frame validator: %s", e)
+	}
+	r.Key("close-busy", waited > 500*time.Millisecond)
+	r.Obs("close_waited_ms", waited.Milliseconds())
+	r.Obs("large_client_messages_whole", int64(atomic.LoadInt32(&bigSeen)))
+	r.Sig(core.Log.Signature())
+	r.Sample(map[string]interface{}{"scenario": "client closed while its writer is in the middle of a 24 MiB reverse-call response", "closer_waited_ms": waited.Milliseconds(), "large_messages_seen_whole": atomic.LoadInt32(&bigSeen)})
 }
